@@ -1,6 +1,6 @@
 #!/bin/bash
 # Builds the framework offline from files on disk only (driver + all worker variants, warming the Go build cache).
-cd /verif || exit 1
+cd "$(dirname "$(readlink -f "$0")")" || exit 1
 export GOFLAGS=-mod=mod GOPROXY=off GOSUMDB=off GOTOOLCHAIN=local CGO_ENABLED=1
 mkdir -p .work evidence
 go build -o .work/vcheck ./cmd/vcheck || exit 1
